@@ -50,6 +50,9 @@ type World struct {
 	extraTypeConsts map[string]int
 	defIndex        map[string]*definer
 	GlobalInvs      []*GlobalInv
+	writeSummary    map[string]int
+	allocSummary    map[*ssa.Function]int
+	writeCuts       int
 	fnByConst       map[string]*ssa.Function
 	Aliases         map[string]string
 }
